@@ -17,10 +17,12 @@ same-module helper), and bucket_of maps each granularity to its own sibling in b
 (f) the bucketers never unwrap the LocalResult of a local-time interpretation (and_local_timezone / from_local_datetime / with_ymd_and_hms; panics for every instant whose bucket start is a repeated or skipped local time - DST).
 (g) a float spelled time is range-checked: in TimeParser::normalize_json_value every store into the value that uses the result of a float-to-int cast (saturating in Rust) is control-dependent on a test
 of that same result (today: chrono can represent it) - 1e300 would otherwise be accepted and stored as i64::MAX.
+(h) at every literal-to-instant site of (b), a raw numeric parse of the literal text (str::parse) is only the fallback behind the shared parser: it sits on the None edge of
+TimeParser::parse_str_to_epoch_seconds - taking an all-digit literal verbatim skips the unit heuristic, so an epoch in ms / us / ns is read as seconds on that path only (pruner vs row filter disagree).
 Does NOT decide the parser's arithmetic (digit-count boundaries, pre-1970, offsets), float epochs, or how ambiguous/skipped local times are resolved.
 """
-FLOOR = 7
-REQUIRED = ["C16.a", "C16.b", "C16.c", "C16.d", "C16.e", "C16.f", "C16.g"]
+FLOOR = 8
+REQUIRED = ["C16.a", "C16.b", "C16.c", "C16.d", "C16.e", "C16.f", "C16.g", "C16.h"]
 
 CHRONO_PARSE = re.compile(r"^chrono::.*(parse_from_rfc3339|parse_from_rfc2822|parse_from_str|parse_and_remainder|FromStr>::from_str)$|^(time|humantime|dateparser|iso8601)::")
 PARSER_FNS = {"shared::time::TimeParser::parse_str_to_epoch_seconds", "shared::time::TimeParser::normalize_json_value"}
@@ -285,3 +287,34 @@ def run(ctx):
                         bad.append(("float-time-unchecked", "normalize_json_value stores the result of a saturating float-to-int cast (%s) without testing its range: 1e300 is accepted as a time and stored as i64::MAX" % sp(b, cb), None))
         return bad
     ctx.run("C16.g", "K1 DOM", "TimeParser::normalize_json_value", "a float time is range-checked before it is stored", g_)
+
+    def h_(inst):
+        bad, n = [], 0
+        for nm, prefix, fn in SITES:
+            ks = [k for k in cg.nodes if k == prefix or k.startswith(prefix + "::")]
+            for k in ks:
+                b = F.fn_exact(k)
+                ps = b.find_calls(r"TimeParser::parse_str_to_epoch_seconds$")
+                raws = [c_ for c_ in b.find_calls(r"str::parse$") if re.search(r"u64|i64|u128|i128|f64", (c_.ga or "") + c_.nname)]
+                if not raws:
+                    continue
+                for r_ in raws:
+                    # does this raw parse read a value the shared parser also reads (the literal)?
+                    shared = [p_ for p_ in ps if wide_all(b, p_.args[0], partial=False) & wide_all(b, r_.args[0], partial=False)]
+                    if not shared:
+                        continue
+                    n += 1
+                    none_e = []
+                    for p_ in shared:
+                        try:
+                            none_e += variant_edge(b, p_, "None")
+                        except AnchorMissing:
+                            pass
+                    ok = any(b.dominates_edge(e_, r_.bb) for e_ in none_e)
+                    inst.sites.append("%s @ %s: raw parse behind the shared parser's None edge=%s" % (nm, sp(b, r_.bb), ok))
+                    if not ok:
+                        bad.append(("raw-epoch-first:%s" % nm, "%s parses the literal as a raw integer before (or instead of) the shared time parser (%s): an epoch spelled in ms / us / ns is taken as seconds on this path" % (nm, sp(b, r_.bb)), None))
+        if n < 1:
+            inst.sites.append("no site parses a time literal as a raw integer")
+        return bad
+    ctx.run("C16.h", "K1 DOM", "time normalisation sites", "a raw integer parse of a time literal is only the fallback of the shared parser", h_)
